@@ -237,6 +237,27 @@ def assumptions(ctx):
         ctx.notes.append("%s: %d theorems, %d with Print Assumptions" % (pf, len(thms), len(printed)))
 
 
+def coqchk(ctx):
+    """Thorough tier: re-check the compiled property file(s) and everything they depend on with Coq's
+    independent checker, and compare the axioms it reports with the allow-list."""
+    libs = ["SR." + pf[:-2].replace("/", ".") for pf in ctx.cfg["prop_files"]]
+    with Lock("coq"):
+        rc, out = sh(["coqchk", "-silent", "-o", "-Q", ".", "SR"] + libs, cwd=COQ, timeout=3 * 3600)
+    if rc != 0:
+        raise Violation("proof", "coqchk rejects the compiled development of %s" % ", ".join(libs), out[-4000:], True)
+    m = re.search(r"\* Axioms:(.*?)(?:\n\* |\Z)", out, re.S)
+    axs = re.findall(r"(?m)^\s+([\w.']+)\s*$", m.group(1)) if m else []
+    unknown = [a for a in axs if not any(re.search(r"(^|\.)(?:" + p + r")$", a) for p in ALLOWED_AXIOMS)]
+    for sect in ("relying on type-in-type", "relying on unsafe (co)fixpoints", "whose positivity is assumed"):
+        ms = re.search(re.escape(sect) + r":\s*(\S+)", out)
+        if not ms or ms.group(1) != "<none>":
+            raise Violation("proof", "coqchk: constants/inductives %s" % sect, out[-4000:], True)
+    ctx.coqchk = {"libraries": libs, "axioms": axs, "tail": out[-1500:]}
+    if unknown:
+        raise Violation("proof", "coqchk reports axioms outside the allow-list: %s" % unknown, out[-4000:], True)
+    ctx.notes.append("coqchk -o accepted %s (%d axioms reported over all loaded libraries)" % (", ".join(libs), len(axs)))
+
+
 # ----------------------------------------------------------------------------------------
 # correspondence
 # ----------------------------------------------------------------------------------------
@@ -629,6 +650,7 @@ def evidence(ctx, violations, status):
             "correspondence": {k: {kk: vv for kk, vv in v.items() if kk != "samples"} for k, v in ctx.corr.items()},
             "known_findings_hit": [e.get("id") for e in ctx.known_hits],
             "notes": ctx.notes,
+            "coqchk": getattr(ctx, "coqchk", None),
             "status": status,
         },
         "assumptions": ctx.cfg.get("assumptions", []),
@@ -673,17 +695,21 @@ def main():
     status = "ok"
     try:
         build_harness(ctx)
-        regen(ctx)
-        coq_build(ctx, "model")
-        # proof obligations (incl. those over regenerated Gen files).  If one breaks, the search on
-        # the model and the implementation still runs: a concrete failing input is the better replay
+        # translator and proof obligations (incl. those over regenerated Gen files).  If one breaks, the
+        # search on the model and the implementation still runs: a concrete failing input is the better replay
         pending = None
+        try:
+            regen(ctx)
+        except Violation as pv:
+            pending = pv
+            ctx.say("  translator obligation broken (%s); searching for a failing input" % pv.summary)
+        coq_build(ctx, "model")
         try:
             coq_build(ctx, "proof")
             hygiene(ctx)
             assumptions(ctx)
         except Violation as pv:
-            pending = pv
+            pending = pending or pv
             ctx.say("  proof obligation broken (%s); searching for a failing input" % pv.summary)
         for hook in ctx.cfg.get("pre", []):
             hook(ctx)
@@ -701,6 +727,8 @@ def main():
         if ctx.tier == "thorough":
             for hook in ctx.cfg.get("thorough", []):
                 hook(ctx)
+            if os.environ.get("VERIF_COQCHK", "1") != "0":
+                coqchk(ctx)
     except Violation as v:
         status = "proof-broken" if v.kind in ("proof", "translator", "hygiene", "build") else "violation"
         payload = v.detail if isinstance(v.detail, dict) else {
